@@ -294,6 +294,9 @@ def Det (A : DFTA σ Q) : Prop := (AList.keys A.rules).Nodup
 def allStates (A : DFTA σ Q) : List Q :=
   A.rules.flatMap (fun rule => rule.2 :: rule.1.2) ++ A.finals
 
+/-- `allStates` without duplicates -/
+def stateSet (A : DFTA σ Q) : List Q := (allStates A).foldl addNew []
+
 /-- number of states of an automaton as Python counts them (`len(dfta.states)`) -/
 def numStates (A : DFTA σ Q) : Nat := A.states.length
 
